@@ -172,6 +172,14 @@ def run(tier):
         verd.witness(classify(r), "", "input %s handler=%s timeline %s" % (json.dumps(byid[b]["letters"]), r["handler"], json.dumps(r["tl"])[:500]),
                      {"scenario": byid[b], "result": r})
     distinct = len({json.dumps(r["tl"]) for r in results})
+    # the same clauses on the connections of the retrying / reconnecting client (a new base client per connection, the
+    # handler handed on by the retrying client): messages directly behind the CONNACK of every connection
+    import retry_family as rf
+    import retry_checks
+    fam = rf.Family(PID)
+    fam.verd = verd
+    rsc = [dict(s_, id="c04r-" + s_["id"]) for s_ in retry_checks.c17_scenarios(rng, 8 if tier == "quick" else 200)]
+    fam.execute(binary, rsc)
     rc = verd.finish()
     sample = results[len(results) // 2] if results else {}
     vlib.write_evidence(PID, tier, "model_checking", {
@@ -180,7 +188,8 @@ def run(tier):
         "non_vacuity": bugs,
         "real_sequences_exhaustive_up_to_length": 3 if tier == "quick" else 5, "real_sequences_exhaustive": nexh,
         "real_sequences_random": len(scs) - nexh, "distinct_timelines": distinct,
-        "evaluations": len(results), "distinct_nontrivial": distinct,
+        "evaluations": len(results) + fam.stats["traces_validated"], "distinct_nontrivial": distinct,
+        "retry_client_traces": fam.stats["traces_validated"],
         "rule": "every packet sequence over the 12-letter alphabet up to the bound, with and without a handler (also a re-entrant one that publishes a QoS 0 reply through the client from inside Serve), plus seeded random sequences up to length 40; distinct = distinct recorded timelines",
         "samples": [{"input": byid.get(sample.get("id"), {}).get("letters"), "timeline": sample.get("tl")}],
         "exhaustive": True,
